@@ -47,6 +47,12 @@ var (
 	verifC32Simple    int
 )
 
+var (
+	verifC32Hold      chan struct{} // when set: the first request for verifC32SlowRange waits for the other two answers
+	verifC32SlowRange string
+	verifC32Fast      int
+)
+
 func verifC32Now() time.Time {
 	verifC32Tick++
 	return time.Unix(1700000000, verifC32Tick*int64(time.Millisecond))
@@ -86,6 +92,18 @@ func verifC32Do(c *http.Client, req *http.Request) (*http.Response, error) {
 		kind = verifC32HedgePlan
 	}
 	verifYield() // the request is on the wire: anything may happen meanwhile
+	if verifC32Hold != nil && verifC32Seen[rng] == 1 {
+		// a slow original: the first request for the last range is answered only after
+		// the other two ranges have been — from then on it races with its hedge
+		if rng == verifC32SlowRange {
+			<-verifC32Hold
+		} else {
+			verifC32Fast++
+			if verifC32Fast == 2 {
+				close(verifC32Hold)
+			}
+		}
+	}
 	spec := strings.TrimPrefix(rng, "bytes=")
 	dash := strings.IndexByte(spec, '-')
 	lo, _ := strconv.Atoi(spec[:dash])
@@ -249,4 +267,52 @@ func verifC32Run() (hedged bool) {
 		verifAssert(err == nil && string(data) == string(verifC32Resource), "when every first answer is right the resource is returned, whatever the hedged duplicates did")
 	}
 	return hedged
+}
+
+
+// A slow original and its hedge race on a network with latency: whichever answer
+// arrives first, a complete set of chunks is a successful fetch.
+//
+//verif:sched quick=0 thorough=1
+//verif:stub (*net/http.Client).Head = verifC32Head
+//verif:stub (*net/http.Client).Get = verifC32Get
+//verif:stub (*net/http.Client).Do = verifC32Do
+//verif:stub net/http.NewRequestWithContext = verifC32NewRequest
+//verif:stub io.ReadAll = verifC32ReadAll
+//verif:stub time.Now = verifC32Now
+//verif:stub time.Since = verifC32Since
+//verif:stub context.WithCancel = verifC32WithCancel
+//verif:bound a resource of 6 bytes in 3 chunks, parallelism 3, hedging on (multiplier 1.0, one hedge); the first request for the last range is answered only after the other two ranges have been (a slow original), and from then on races with its hedge in every order the scheduler allows (so a hedge's failure can arrive before the original's success, or after it); first answers exact, or the third range fails; the hedged duplicate exact / transport failure / 500; interleavings at blocking points (thorough: plus 1 preemption)
+func verifH_C32_slow_original() {
+	verifC32Plan, verifC32Seen = map[string]int{}, map[string]int{}
+	verifC32Requests, verifC32Tick, verifC32Simple = 0, 0, 0
+	verifC32HeadFails, verifC32NoRanges = false, false
+	verifC32Resource = []byte("abcdef")
+	for i := 0; i < 3; i++ {
+		verifC32Plan["bytes="+strconv.Itoa(2*i)+"-"+strconv.Itoa(2*i+1)] = c32Exact
+	}
+	lastFails := verifNondetBool("last_range_fails")
+	if lastFails {
+		verifC32Plan["bytes=4-5"] = c32Transport
+	}
+	verifC32HedgePlan = []int{c32Exact, c32Transport, c32Status}[verifChoice("hedge.behaviour", 3)]
+	verifC32Hold, verifC32SlowRange, verifC32Fast = make(chan struct{}), "bytes=4-5", 0
+	cfg := &FetchConfig{ParallelThresholdBytes: 1, ChunkSizeBytes: 2, MaxParallelRequests: 3, MaxFetchBytes: 1 << 20,
+		SpeculativeRetryMultiplier: 1.0, MaxSpeculativeHedges: 1}
+	data, err := FetchWithParallelRangeRequests(&http.Client{}, "https://origin/x", cfg)
+	verifC32Hold = nil
+	verifReach("latency-fetch-returned")
+	verifAssert(err != nil || string(data) == string(verifC32Resource), "the fetch returns exactly the bytes of the resource, or an error")
+	hedged := false
+	for _, c := range verifC32Seen {
+		if c > 1 {
+			hedged = true
+		}
+	}
+	if !lastFails {
+		verifAssert(err == nil && string(data) == string(verifC32Resource), "when every first answer is right the resource is returned — a hedge that fails, early or late, changes nothing")
+		if hedged && verifC32HedgePlan != c32Exact {
+			verifReach("failed-hedge-with-good-original")
+		}
+	}
 }
